@@ -280,6 +280,9 @@ fn float_sequences(rng: &mut Rng) -> Vec<(String, Vec<f64>)> {
     for c in ["f32_exact", "f64_noise", "int_valued", "mixed_special"] {
         v.push((format!("class_{}", c), gen::gen_floats(c, 60, rng)));
     }
+    // nullable float result columns travel with the engine's NULL marker in place of NULL
+    let with_null: Vec<f64> = gen::gen_floats("f32_exact", 60, rng).into_iter().enumerate().map(|(i, x)| if i % 3 == 1 { f64::from_bits(crate::model::F64_NULL_BITS) } else { x }).collect();
+    v.push(("with_null_markers".to_string(), with_null));
     v
 }
 
